@@ -104,50 +104,51 @@ theorem hsStep_rank0 {c : Conn} (h : rank c.phase = 0) (b : Bytes) : hsStep P c 
   unfold hsStep
   cases hp : c.phase <;> simp_all [rank]
 
-theorem progress1_runs (cq : Conn × Net) :
-    (hsMachine P).Runs cq.1 cq.2.flatten [] (progress1 P cq).1 (progress1 P cq).2.flatten := by
-  unfold progress1
-  cases h : hsStep P cq.1 cq.2.flatten with
-  | none => exact Machine.Runs.refl _ _
-  | some r =>
-    obtain ⟨c', n⟩ := r
-    simp only [Net.dropBytes_flatten]
-    have hs : (hsMachine P).step cq.1 cq.2.flatten = some (c', [], n) := by simp [hsMachine, h]
-    exact Machine.Runs.step hs (Machine.Runs.refl _ _)
-
-theorem progress1_rank (cq : Conn × Net) :
-    hsStep P (progress1 P cq).1 (progress1 P cq).2.flatten = none ∨
-      rank (progress1 P cq).1.phase < rank cq.1.phase := by
-  unfold progress1
-  cases h : hsStep P cq.1 cq.2.flatten with
-  | none => left; simpa using h
-  | some r => right; exact hsStep_rank P h
-
-theorem progress1_fix {cq : Conn × Net} (h : hsStep P cq.1 cq.2.flatten = none) : progress1 P cq = cq := by
-  unfold progress1; rw [h]
-
 theorem rank_le (p : Phase) : rank p ≤ 3 := by cases p <;> simp [rank]
 
+theorem progressN_runs (k : Nat) (cq : Conn × Net) :
+    (hsMachine P).Runs cq.1 cq.2.flatten [] (progressN P k cq).1 (progressN P k cq).2.flatten := by
+  induction k generalizing cq with
+  | zero => exact Machine.Runs.refl _ _
+  | succ k ih =>
+    unfold progressN
+    cases h : hsStep P cq.1 cq.2.flatten with
+    | none => exact Machine.Runs.refl _ _
+    | some r =>
+      obtain ⟨c', n⟩ := r
+      have hs : (hsMachine P).step cq.1 cq.2.flatten = some (c', [], n) := by simp [hsMachine, h]
+      have := ih (c', Net.dropBytes n cq.2)
+      simp only [Net.dropBytes_flatten] at this
+      exact Machine.Runs.step hs this
+
+theorem progressN_rank (k : Nat) (cq : Conn × Net) :
+    hsStep P (progressN P k cq).1 (progressN P k cq).2.flatten = none ∨
+      rank (progressN P k cq).1.phase + k ≤ rank cq.1.phase := by
+  induction k generalizing cq with
+  | zero => right; simp [progressN]
+  | succ k ih =>
+    unfold progressN
+    cases h : hsStep P cq.1 cq.2.flatten with
+    | none => left; simpa using h
+    | some r =>
+      obtain ⟨c', n⟩ := r
+      have hr := hsStep_rank P h
+      rcases ih (c', Net.dropBytes n cq.2) with h1 | h1
+      · left; exact h1
+      · right; simp only at h1 ⊢; omega
+
 theorem progress_runs (c : Conn) (q : Net) :
-    (hsMachine P).Runs c q.flatten [] (progress P c q).1 (progress P c q).2.flatten := by
-  unfold progress
-  have h1 := progress1_runs P (c, q)
-  have h2 := progress1_runs P (progress1 P (c, q))
-  have h3 := progress1_runs P (progress1 P (progress1 P (c, q)))
-  simpa using (h1.trans _ h2).trans _ h3
+    (hsMachine P).Runs c q.flatten [] (progress P c q).1 (progress P c q).2.flatten :=
+  progressN_runs P 3 (c, q)
 
 theorem progress_quiescent (c : Conn) (q : Net) :
     (hsMachine P).Quiescent (progress P c q).1 (progress P c q).2.flatten := by
   have key : hsStep P (progress P c q).1 (progress P c q).2.flatten = none := by
     unfold progress
     have r0 := rank_le c.phase
-    rcases progress1_rank P (c, q) with h1 | h1
-    · rw [progress1_fix P h1, progress1_fix P h1]; exact h1
-    · rcases progress1_rank P (progress1 P (c, q)) with h2 | h2
-      · rw [progress1_fix P h2]; exact h2
-      · rcases progress1_rank P (progress1 P (progress1 P (c, q))) with h3 | h3
-        · exact h3
-        · exact hsStep_rank0 P (by simp only at h1; omega) _
+    rcases progressN_rank P 3 (c, q) with h | h
+    · exact h
+    · exact hsStep_rank0 P (by simp only at h; omega) _
   simp [Machine.Quiescent, hsMachine, key]
 
 theorem feedAll_fed (c : Conn) (q : Net) (cs : List Bytes) :
